@@ -4,12 +4,16 @@ Part "minimiser": every sample of <= L values over VALUES; the real
 mean_quantile_score is evaluated for every candidate constant estimate
 (sample values, midpoints, one point outside on each side) and every tau; the
 constants it ranks best must be exactly the tau-quantiles by counting.
+Part "large": the same for one sample of 1023 and one of 10^4 values with
+heavy tails, candidates around every tau*n-th order statistic, and one
+(n, 7) matrix of estimates against the exact loss element by element.
 Part "pointwise": every (observations, estimates, taus) triple of small
 (n, k) shapes in every accepted input layout against the exact pinball loss.
 Part "shapes": every combination of array shapes up to 4 x 4; documented
 layouts must work, size-inconsistent ones must raise ValueError.
 Part "percent": mape / bias (c19_percent.py).
 """
+import collections
 import functools
 import itertools
 import math
@@ -27,11 +31,18 @@ from checks import c19_percent                         # noqa: E402
 PROP = "C19"
 LEVEL = "exploration"
 RULE = ("minimiser: every sequence of 1..L values from {-2, 0, 1, 3.5, 100} "
-        "(L=5 quick, 6 thorough; ties arise from repetition) x 5 taus, each "
+        "(L=5 quick, 6 thorough; ties arise from repetition) x 7 taus "
+        "(T = {.1, .25, .5, .75, .9} and E = {.001, .999}), each "
         "with all candidate constants (distinct sample values, their "
         "midpoints, min-1, max+1) in 2 layouts; non-trivial = the sample has "
-        ">= 2 distinct values. pointwise: every (y in V^n, estimates in "
-        "V^(n x k), taus in T^k ordered with repetition) for (n, k) with "
+        ">= 2 distinct values. large: one heavy-tailed sample with ties of "
+        "1023 and one of 10^4 values x the 7 taus x 2 layouts, candidate "
+        "constants = the distinct values up to two places around each "
+        "tau*n-th order statistic; plus quantile_score and "
+        "mean_quantile_score of the (n, 7) matrix of rotated samples against "
+        "the exact loss of every element. pointwise: every (y in V^n, "
+        "estimates in V^(n x k), taus in T^k or E^k ordered with repetition) "
+        "for (n, k) with "
         "n*k <= 4 (quick: n, k <= 3), in 8 (k=1) / 4 (k>1) layouts, both "
         "functions; non-trivial = some estimate differs from its "
         "observation. shapes: every (y_tau shape, y_test shape, taus form) "
@@ -41,20 +52,30 @@ RULE = ("minimiser: every sequence of 1..L values from {-2, 0, 1, 3.5, 100} "
         "5 (thorough) truths from {+-1, +-2, 0.5, 1e6} with a uniform offset "
         "from {0, +-1, +-10, 50} %, and every sequence of 2 (quick) / <= 3 "
         "(thorough) (truth, offset) pairs with differing offsets, each x "
-        "{mape, bias} x scale {1, -3, 1e-3, 7} x layouts {both (n,), (n,1), (1,n), (n/2,2); "
-        "prediction (n,1) with truth (n,) and vice versa}; non-trivial = some offset "
+        "{mape, bias} x scale {1, -3, 1e-3, 7} x layouts {both (n,), (n,1), "
+        "(1,n), (n/2,2); prediction (n,1) with truth (n,) and vice versa; "
+        "both (n,) with the prediction or the truth as int64 where its "
+        "values are integral}; non-trivial = some offset "
         "!= 0. All cases are distinct by construction (products without "
         "repetition).")
 ASSUMPTIONS = [
-    "sample values are small dyadic rationals, so differences are exact and "
-    "the tolerance (4 ulp per loss, n+4 ulp per mean) covers the roundings "
-    "of tau*|d|, (1-tau)*|d| and the summation only",
+    "sample values are dyadic rationals (small parts: differences are exact "
+    "in float64; large samples: one rounding of the difference); the "
+    "tolerance (4 ulp per loss, n+4 ulp per mean of non-negative terms) "
+    "covers the roundings of d, tau*|d|, (1-tau)*|d| and the summation only",
     "the oracle is exact rational arithmetic on the float inputs; a "
     "tau-quantile is a c with #(y<c) <= tau*n <= #(y<=c)",
     "y_tau and y_test are numpy arrays of float64 or - in the first layout of "
     "every case with integral values - int64 (lists, NaN, empty arrays and "
-    "float32 are not exercised); samples have <= 6 values, the "
-    "statement's 10^4 is not reached",
+    "float32 are not exercised); samples have <= 6 values exhaustively, "
+    "1023 and 10^4 values with one sample each; the taus in one vector are "
+    "all from T or all from E",
+    "a constant counts as a minimiser if its float mean loss is within "
+    "1e-12 of the lowest, relative to the largest loss of a candidate; the "
+    "generator asserts (harness error) that no exact loss of a non-quantile "
+    "lies within 1e-9 of the minimum, also for the large samples",
+    "mape/bias: int64 arrays only as 1-D vectors and only one of the two "
+    "arguments at a time",
     "shape combinations whose sizes agree (y_tau.size == y_test.size * "
     "taus.size) but whose axes do not follow the documented (n, k) layout "
     "are accepted with any outcome (the statement does not say which reading "
@@ -67,6 +88,9 @@ ASSUMPTIONS = [
 
 VALUES = (-2.0, 0.0, 1.0, 3.5, 100.0)
 TAUS = (0.1, 0.25, 0.5, 0.75, 0.9)
+EXTREME_TAUS = (1e-3, 0.999)
+MIN_TAUS = EXTREME_TAUS[:1] + TAUS + EXTREME_TAUS[1:]     # minimiser, large
+LARGE_SIZES = (1023, 10 ** 4)
 EPS = F(1, 2 ** 52)
 
 
@@ -84,9 +108,22 @@ def close(obs, exact, ulps):
         abs(F(float(obs)) - exact) <= ulps * EPS * abs(exact)
 
 
+@functools.lru_cache(maxsize=2)
+def multiplicities(y):
+    """Sorted (value, count) pairs of the sample."""
+    return tuple(sorted(collections.Counter(y).items()))
+
+
+@functools.lru_cache(maxsize=2 * len(MIN_TAUS))
+def exact_losses(y, tau):
+    """Exact mean loss of every candidate constant; tau a Fraction."""
+    return {c: sum(k * pinball(tau, c, v) for v, k in multiplicities(y))
+            / len(y) for c in candidates(y)}
+
+
 def is_quantile(c, y, tau):
-    below = sum(1 for v in y if v < c)
-    upto = sum(1 for v in y if v <= c)
+    below = sum(k for v, k in multiplicities(y) if v < c)
+    upto = sum(k for v, k in multiplicities(y) if v <= c)
     return below <= tau * len(y) <= upto
 
 
@@ -204,18 +241,29 @@ def check_documented(y, est, taus, which=None):
 # ------------------------------------------------------------ minimiser
 
 def candidates(y):
-    ys = sorted(set(y))
-    mids = [(a + b) / 2 for a, b in zip(ys, ys[1:])]
-    return [ys[0] - 1] + sorted(ys + mids) + [ys[-1] + 1]
+    """Constant estimates tried for the sample: for a small sample every
+    distinct value, the midpoints and one point outside on each side; for a
+    large one, per tau, the distinct values up to two places around the
+    tau * n-th order statistic."""
+    ys = [v for v, _ in multiplicities(y)]
+    if len(y) < min(LARGE_SIZES):
+        mids = [(a + b) / 2 for a, b in zip(ys, ys[1:])]
+        return [ys[0] - 1] + sorted(ys + mids) + [ys[-1] + 1]
+    ranks = list(itertools.accumulate(k for _, k in multiplicities(y)))
+    near = set()
+    for tau in MIN_TAUS:
+        i = next(i for i, r in enumerate(ranks) if r >= F(tau) * len(y))
+        near.update(ys[max(i - 2, 0):i + 3])
+    return sorted(near)
 
 
 @functools.lru_cache(maxsize=1)
 def matrix_losses(y):
-    """typhon's mean loss of every candidate constant, one (n, 5) call per
-    constant -> {c: [loss per tau]}; shared by the 5 tau cases of y."""
+    """typhon's mean loss of every candidate constant, one (n, 7) call per
+    constant -> {c: [loss per tau]}; shared by the 7 tau cases of y."""
     return {c: [float(v) for v in call(
-        "mean_quantile_score", np.full((len(y), len(TAUS)), c), np.array(y),
-        np.array(TAUS))] for c in candidates(y)}
+        "mean_quantile_score", np.full((len(y), len(MIN_TAUS)), c),
+        np.array(y), np.array(MIN_TAUS))] for c in candidates(y)}
 
 
 def vector_losses(y, tau):
@@ -227,9 +275,9 @@ def vector_losses(y, tau):
 
 def check_minimiser(y, tau_index, matrix):
     """None, (key, expected, observed, msg) or ("HARNESS", msg)."""
-    tau = F(TAUS[tau_index])
+    tau = F(MIN_TAUS[tau_index])
     cands = candidates(y)
-    exact = {c: sum(pinball(tau, c, v) for v in y) / len(y) for c in cands}
+    exact = exact_losses(y, tau)
     best, scale = min(exact.values()), max(exact.values())
     quantiles = [c for c in cands if is_quantile(c, y, tau)]
     if quantiles != [c for c in cands if exact[c] == best]:
@@ -237,7 +285,7 @@ def check_minimiser(y, tau_index, matrix):
     if any(best < v <= best + scale * F(1, 10 ** 9) for v in exact.values()):
         return ("HARNESS", "candidate inside the don't-care band")
     try:
-        loss = vector_losses(y, TAUS[tau_index]) if not matrix else \
+        loss = vector_losses(y, MIN_TAUS[tau_index]) if not matrix else \
             {c: v[tau_index] for c, v in matrix_losses(y).items()}
     except Exception as exc:
         return ("exception/mean_quantile_score/" + type(exc).__name__,
@@ -247,13 +295,13 @@ def check_minimiser(y, tau_index, matrix):
     lowest = min(loss.values())
     minimisers = [c for c in cands
                   if loss[c] <= lowest + 1e-12 * float(scale)]
-    msg = "tau=%r losses=%r" % (TAUS[tau_index], loss)
+    msg = "tau=%r losses=%r" % (MIN_TAUS[tau_index], loss)
     if any(c not in quantiles for c in minimisers):
         return ("minimiser/not-a-tau-quantile", quantiles, minimisers, msg)
     for c in cands:
         if not close(loss[c], exact[c], len(y) + 4):
             return ("mean_quantile_score/not-mean-pinball", float(exact[c]),
-                    loss[c], "constant %r tau=%r" % (c, TAUS[tau_index]))
+                    loss[c], "constant %r tau=%r" % (c, MIN_TAUS[tau_index]))
     return None
 
 
@@ -262,19 +310,57 @@ def recheck_minimiser(*case):
     return check_minimiser(*case)
 
 
+def minimiser_cases(res, y, case):
+    res.count("constant_estimates", len(candidates(y)))
+    for tau_index, matrix in itertools.product(range(len(MIN_TAUS)),
+                                               (True, False)):
+        res.case(nontrivial=len(set(y)) > 1)
+        report(res, dict(case, tau_index=tau_index, matrix=matrix),
+               check_minimiser(y, tau_index, matrix),
+               lambda: recheck_minimiser(y, tau_index, matrix))
+
+
 def run_minimiser(res, n, prefix):
     y = None
     for rest in itertools.product(VALUES, repeat=n - len(prefix)):
         y = prefix + rest
-        res.count("constant_estimates", len(candidates(y)))
-        for tau_index, matrix in itertools.product(range(len(TAUS)),
-                                                   (True, False)):
-            res.case(nontrivial=len(set(y)) > 1)
-            case = dict(part="minimiser", y=y, tau_index=tau_index,
-                        matrix=matrix)
-            report(res, case, check_minimiser(y, tau_index, matrix),
-                   lambda: recheck_minimiser(y, tau_index, matrix))
-    res.sample(dict(part="minimiser", y=y, taus=TAUS,
+        minimiser_cases(res, y, dict(part="minimiser", y=y))
+    res.sample(dict(part="minimiser", y=y, taus=MIN_TAUS,
+                    candidates=candidates(y)))
+
+
+# ---------------------------------------------------------------- large
+
+LARGE_LAYOUT = (2, 1, "array")
+
+
+def large_sample(n):
+    """n dyadic values with heavy tails (magnitudes 1 .. 2^16, every octave
+    equally likely), both signs, ties, and distinct values at least 1
+    apart (so that the mean losses of neighbouring constants differ by far
+    more than the rounding of a sum of n terms)."""
+    def value(i):
+        e = i % 16
+        r = min(64, 2 ** e)
+        return (-1.0) ** (i % 3) * 2.0 ** e * (1 + (i // 48 % 61 % r) / r)
+    return tuple(value(i) for i in range(n))
+
+
+def shifted(y):
+    """Estimates (n, 7): column j is the sample rotated by j places (column
+    0 coincides with the observations)."""
+    return tuple(tuple(y[(i + j) % len(y)] for j in range(len(MIN_TAUS)))
+                 for i in range(len(y)))
+
+
+def run_large(res, n):
+    y = large_sample(n)
+    minimiser_cases(res, y, dict(part="large-minimiser", n=n))
+    res.case(nontrivial=True)
+    case = dict(part="large-pointwise", n=n)
+    report(res, case, check_documented(y, shifted(y), MIN_TAUS, LARGE_LAYOUT),
+           lambda: check_documented(y, shifted(y), MIN_TAUS, LARGE_LAYOUT))
+    res.sample(dict(part="large", n=n, distinct=len(multiplicities(y)),
                     candidates=candidates(y)))
 
 
@@ -297,7 +383,9 @@ def run_pointwise(res, n, k, prefix):
     for rest in itertools.product(VALUES, repeat=n + n * k - len(prefix)):
         y, est = (prefix + rest)[:n], rows((prefix + rest)[n:], k)
         differs = any(est[i][j] != y[i] for i in range(n) for j in range(k))
-        for taus in itertools.product(TAUS, repeat=k):
+        for taus in itertools.chain(
+                itertools.product(TAUS, repeat=k),
+                itertools.product(EXTREME_TAUS, repeat=k)):
             res.case(nontrivial=differs)
             case = dict(part="pointwise", y=y, est=est, taus=taus)
             report(res, case, check_documented(y, est, taus),
@@ -398,6 +486,7 @@ def shards(tier, seed):
         out.extend(("pointwise", n, k, prefix) for prefix in
                    itertools.product(VALUES, repeat=min(3, n + n * k)))
     out.extend(("shapes", tshape) for tshape in Y_TAU_SHAPES)
+    out.extend(("large", n) for n in LARGE_SIZES)
     out.extend(c19_percent.shards(tier))
     return out
 
@@ -411,6 +500,8 @@ def run_shard(shard):
         run_pointwise(res, *shard[1:])
     elif shard[0] == "shapes":
         run_shapes(res, shard[1])
+    elif shard[0] == "large":
+        run_large(res, shard[1])
     else:
         c19_percent.run_shard(res, shard, report)
     res.count("quantile_score_calls", CALLS[0] - before)
@@ -426,6 +517,12 @@ def replay(case):
     part = case["part"]
     if part == "minimiser":
         bad = check_minimiser(case["y"], case["tau_index"], case["matrix"])
+    elif part == "large-minimiser":
+        bad = check_minimiser(large_sample(case["n"]), case["tau_index"],
+                              case["matrix"])
+    elif part == "large-pointwise":
+        y = large_sample(case["n"])
+        bad = check_documented(y, shifted(y), MIN_TAUS, LARGE_LAYOUT)
     elif part == "pointwise":
         bad = check_documented(case["y"], case["est"], case["taus"])
     elif part == "documented":
